@@ -50,3 +50,19 @@ func (v *VerifShard) WriteReplicated(rows []influx.Row, snp *raftlog.SnapShotter
 	}
 	return v.sh.WriteRows(rows, nil)
 }
+
+// VerifStartCommitLoop is startCommitLoop: the apply loop of a partition, which applies nothing
+// before the caller closes replayDone (after it has applied the start-up replay).
+func VerifStartCommitLoop(node *raftconn.RaftNode, client metaclient.MetaClient, storage StorageService, replayDone <-chan struct{}) {
+	startCommitLoop(node, client, storage, replayDone)
+}
+
+// HasSnapShotter tells whether the shard has learnt the partition's SnapShotter (first replicated write).
+func (v *VerifShard) HasSnapShotter() bool { return v.sh.SnapShotter != nil }
+
+// Abandon closes a shard object whose process "died": nothing it still does may reach the raft node
+// (a flush at close would block on the snapshot signal nobody receives any more).
+func (v *VerifShard) Abandon() error {
+	v.sh.SnapShotter = nil
+	return v.Close()
+}
